@@ -8,6 +8,7 @@ import PhyloModel.Matrix.Upgma
 import PhyloModel.Misc.Generators
 import PhyloModel.Misc.Layout
 import PhyloModel.Arena.Cli
+import PhyloModel.Newick.FloatLexeme
 /-! Line-protocol driver: runs the executable definitions of the model, one request per line
     (tab-separated fields), one answer line per request.  See /verif/PROTOCOL.md.
     Unknown or ill-formed requests answer `bad-op`; nothing is ever defaulted. -/
@@ -107,32 +108,9 @@ def decPSlot (s : String) : Option (Bool × NW.PNode NW.Label) :=
 def decPArena (s : String) : Option (List (Bool × NW.PNode NW.Label)) :=
   if s == "_" then some [] else (s.splitOn "|").mapM decPSlot
 
-/-! ### Rust `f64::from_str` recogniser (the codec's `parseLen` on lexemes) -/
-def lower (c : Char) : Char := if 'A' ≤ c ∧ c ≤ 'Z' then Char.ofNat (c.toNat + 32) else c
-def isDig (c : Char) : Bool := '0' ≤ c && c ≤ '9'
-def spanDigits : List Char → (Nat × List Char)
-  | c :: cs => if isDig c then let (n, r) := spanDigits cs; (n + 1, r) else (0, c :: cs)
-  | [] => (0, [])
-def expOk : List Char → Bool
-  | [] => true
-  | c :: cs =>
-    if c == 'e' || c == 'E' then
-      let cs' := match cs with | '+' :: r => r | '-' :: r => r | r => r
-      let (n, r) := spanDigits cs'
-      n > 0 && r.isEmpty
-    else false
-def numberOk (s : List Char) : Bool :=
-  let (n1, r1) := spanDigits s
-  match r1 with
-  | '.' :: r2 =>
-    let (n2, r3) := spanDigits r2
-    (n1 + n2 > 0) && expOk r3
-  | _ => n1 > 0 && expOk r1
-def isRustFloat (s : List Char) : Bool :=
-  let body := match s with | '+' :: r => r | '-' :: r => r | r => r
-  let lw := body.map lower
-  lw == "inf".toList || lw == "infinity".toList || lw == "nan".toList || numberOk body
-def parseLex (s : NW.Label) : Option NW.Label := if isRustFloat s then some s else none
+/-! ### Rust `f64::from_str` recogniser (the codec's `parseLen` on lexemes): `NW.FloatTwin` of
+    `PhyloModel/Newick/FloatLexeme.lean` — the SAME definitions the C02 theorem `reject_unbalanced_float` is about -/
+open NW.FloatTwin
 
 /-! ### exact value of a float lexeme (the codec's `numEq`/`isZero` on lexemes) -/
 inductive FVal where | nan | inf (neg : Bool) | fin (r : Rat)
